@@ -10,7 +10,8 @@
    All facts about the tables are decided by vm_compute over the 256 configurations and
    lifted by soundness lemmas that are ordinary proofs. *)
 From Coq Require Import List ZArith NArith Lia Bool Permutation.
-From Sdfx Require Import Generated.MarchTables Render.Balance.
+From Sdfx Require Import Generated.MarchTables.
+From Sdfx Require Import Render.Balance.
 Import ListNotations.
 Open Scope Z_scope.
 
